@@ -14,6 +14,11 @@
 (*            a call returns depends on the receiver's own history only     *)
 (*            (PT_Sharing!Functional)                                       *)
 (*   obs0 : digest of the seed before the first call                        *)
+(*   mut  : TRUE for histories over a builder created with immutable=False  *)
+(*          (PT_Sharing!MCall: the call works on the receiver itself): the  *)
+(*          receiver coming back and the receiver's own change are the      *)
+(*          protocol, every OTHER object - in particular a duplicate or the *)
+(*          original of a duplicate - must still keep its observation       *)
 (* The trace spec replays the protocol: after a "new" step the store has    *)
 (* grown by exactly one object, otherwise it has not grown; in every step   *)
 (* every pre-existing object keeps its observation.                         *)
@@ -22,25 +27,26 @@ Events == ndJsonDeserialize(IOEnv.TRACE_FILE)
 VARIABLE i
 Init == i = 1
 
-RECURSIVE Walk(_, _, _, _)
+RECURSIVE Walk(_, _, _, _, _)
 \* prev: observation vector before step k; returns set of <<step, victim, kind>>
-Walk(steps, k, prev, acc) ==
+Walk(steps, k, prev, acc, mut) ==
     IF k > Len(steps) THEN acc
     ELSE LET st == steps[k]
              \* every call adds one slot: the new object, or "-" when the call raised / was not executable
              shape == IF Len(st.obs) # Len(prev) + 1 \/ ((st.res = "new") # (st.obs[Len(st.obs)] # "-"))
                       THEN {<<k, 0, "store-shape">>} ELSE {}
-             same == IF st.res = "same" THEN {<<k, st.r, "returned-receiver">>} ELSE {}
-             moved == {<<k, v, "changed">> : v \in {x \in 1..Len(prev) : x <= Len(st.obs) /\ st.obs[x] # prev[x]}}
+             isdup == st.l \in {"copy", "deepcopy", "pickle"}
+             same == IF st.res = "same" /\ (~mut \/ isdup) THEN {<<k, st.r, "returned-receiver">>} ELSE {}
+             moved == {<<k, v, "changed">> : v \in {x \in 1..Len(prev) : x <= Len(st.obs) /\ st.obs[x] # prev[x] /\ (~mut \/ isdup \/ x # st.r)}}
              \* C15: a duplication step never raises and its result is observed exactly like its original
              dupbad == IF st.l \notin {"copy", "deepcopy", "pickle"} \/ st.res = "skip" THEN {}
                        ELSE IF st.res # "new" THEN {<<k, st.r, "dup-raises">>}
                        ELSE IF Len(st.obs) = Len(prev) + 1 /\ st.obs[Len(st.obs)] # prev[st.r] THEN {<<k, st.r, "dup-differs">>}
                        ELSE {}
              sibling == IF st.res = "new" /\ st.lin # "" /\ st.obs[Len(st.obs)] # st.lin THEN {<<k, Len(st.obs), "sibling-dependent">>} ELSE {}
-         IN Walk(steps, k + 1, st.obs, acc \cup shape \cup same \cup moved \cup dupbad \cup sibling)
+         IN Walk(steps, k + 1, st.obs, acc \cup shape \cup same \cup moved \cup dupbad \cup sibling, mut)
 
-Verdict(e) == [tid |-> e.tid, bad |-> Walk(e.steps, 1, <<e.obs0>>, {})]
+Verdict(e) == [tid |-> e.tid, bad |-> Walk(e.steps, 1, <<e.obs0>>, {}, e.mut)]
 Next == /\ i <= Len(Events)
         /\ LET v == Verdict(Events[i]) IN IF v.bad = {} THEN TRUE ELSE PrintT("V " \o ToJson(v))
         /\ i' = i + 1
